@@ -106,9 +106,10 @@ Proof.
   destruct ls_parts as [_ [_ Hp]]. unfold pairs_ok in Hp.
   rewrite forallb_forall in Hp. specialize (Hp _ Hs1). rewrite forallb_forall in Hp. specialize (Hp _ Hs2).
   unfold pair_ok in Hp. rewrite Hf1, Hf2, Hg1, Hg2, Hw1, Hw2 in Hp.
-  rewrite N.eqb_refl in Hp. rewrite Hw in Hp. simpl in Hp.
-  apply orb_true_iff in Hp. destruct Hp as [Hp|Hp]; [|right; exact Hp].
-  apply orb_true_iff in Hp. destruct Hp as [Hp|Hp]; [|left; exact Hp].
+  rewrite N.eqb_refl in Hp. rewrite Hw in Hp.
+  destruct (share (s_locks s1) (s_locks s2)) eqn:Hsh.
+  2:{ destruct (exc f g1 g2) eqn:He1; [left; reflexivity|]. right. exact Hp. }
+  clear Hp. rename Hsh into Hp.
   exfalso. apply share_In in Hp. destruct Hp as [x [Hx1 Hx2]].
   apply Hl1 in Hx1. apply Hl2 in Hx2. congruence.
 Qed.
@@ -132,3 +133,48 @@ Theorem lockset_sound_skel : forall (sk : skeleton) (E : fname -> list lock) (ex
     accessing c i = Some (g1, f, w1) -> accessing c j = Some (g2, f, w2) -> w1 || w2 = true ->
     exc f g1 g2 = true \/ exc f g2 g1 = true.
 Proof. intros sk E exc H. apply (lockset_sound_prog (prog_of sk) E (sk_roots sk) exc H). Qed.
+
+(* with no exclusion: no two threads are ever simultaneously about to perform conflicting accesses *)
+Theorem lockset_sound_strict : forall (sk : skeleton) (E : fname -> list lock),
+  lockset_check (prog_of sk) E (sk_roots sk) (fun _ _ _ => false) = true ->
+  forall ts c, incl ts (sk_roots sk) -> reach (prog_of sk) (init (prog_of sk) ts) c ->
+  forall i j g1 g2 f w1 w2, i <> j ->
+    accessing c i = Some (g1, f, w1) -> accessing c j = Some (g2, f, w2) -> w1 || w2 = false.
+Proof.
+  intros sk E H ts c Hts Hr i j g1 g2 f w1 w2 Hij H1 H2.
+  destruct (w1 || w2) eqn:Hw; [|reflexivity]. exfalso.
+  destruct (lockset_sound_skel sk E _ H ts c Hts Hr i j g1 g2 f w1 w2 Hij H1 H2 Hw); discriminate.
+Qed.
+
+(* ---------- the skeleton of the code as it is now ---------- *)
+From PS Require Import Gen.Skel Model.C19Corr.
+
+Lemma c19_skeleton_ok_now : c19_skeleton_ok = true.
+Proof. vm_compute. reflexivity. Qed.
+
+Lemma c19_current_races_excused :
+  forall ts c, incl ts skel_roots -> reach c19_prog (init c19_prog ts) c ->
+  forall i j g1 g2 f w1 w2, i <> j ->
+    accessing c i = Some (g1, f, w1) -> accessing c j = Some (g2, f, w2) -> w1 || w2 = true ->
+    c19_excuse f g1 g2 = true \/ c19_excuse f g2 g1 = true.
+Proof.
+  assert (H : lockset_check c19_prog (lookupL c19_must) skel_roots c19_excuse = true).
+  { pose proof c19_skeleton_ok_now as H. unfold c19_skeleton_ok in H.
+    apply andb_true_iff in H. destruct H as [_ H]. exact H. }
+  exact (lockset_sound_prog c19_prog (lookupL c19_must) skel_roots c19_excuse H).
+Qed.
+
+(* the hypotheses of lockset_sound are satisfiable by a skeleton with a lock taken by the caller, a goroutine and
+   conflicting accesses:  f0: lock 0 { call f1 }; spawn f2     f1: write field 0     f2: lock 0 { read field 0 } *)
+Example lockset_example :
+  exists (sk : skeleton) E,
+    lockset_check (prog_of sk) E (sk_roots sk) (fun _ _ _ => false) = true /\
+    exists c, reach (prog_of sk) (init (prog_of sk) [0%N; 0%N]) c /\ accessing c 0 = Some (1%N, 0%N, true).
+Proof.
+  exists (mkSkeleton [(0, [(0,0); (2,0); (5,1); (7,2)]); (1, [(4,0)]); (2, [(0,0); (3,0); (1,0)])]%N [] [] [0]%N).
+  exists (lookupL [(0, []); (1, [0]); (2, [])]%N).
+  split; [vm_compute; reflexivity|].
+  eexists. split.
+  - eapply run_reach_init with (sched := [0; 0]%nat). vm_compute. reflexivity.
+  - vm_compute. reflexivity.
+Qed.
